@@ -93,7 +93,10 @@ func Prepare(repo, overlay, dir, goBin string, env []string, log func(string, ..
 		}
 		err := CopyTree(src, filepath.Join(dir, d.to), func(rel string, e fs.DirEntry) bool {
 			if e.IsDir() {
-				return rel != "." // top-level package only
+				return rel != "." && rel != "visualization" // top-level package (+ porcupine's embedded assets) only
+			}
+			if strings.HasPrefix(rel, "visualization/") {
+				return false
 			}
 			return !strings.HasSuffix(rel, ".go") || strings.HasSuffix(rel, "_test.go")
 		})
